@@ -28,11 +28,25 @@ func checkC19(c *Check) {
 func (c *Check) decodePrefixRules(rule string) {
 	p := c.P
 	fn := p.Fn("decodePrefix")
-	if fn == nil || len(fn.Params) != 2 {
+	if fn == nil {
 		return
 	}
-	b := paramExpr(fn, 0)
-	v6 := paramExpr(fn, 1)
+	// the field and the family flag, wherever they stand in the signature
+	bi, vi := -1, -1
+	for i, prm := range fn.Params {
+		if sl, ok := prm.Type().Underlying().(*types.Slice); ok && bi < 0 && typeKey(sl.Elem()) == "byte" || (ok && bi < 0 && typeKey(sl.Elem()) == "uint8") {
+			bi = i
+		}
+		if isBoolType(prm.Type()) && vi < 0 {
+			vi = i
+		}
+	}
+	if bi < 0 || vi < 0 {
+		c.undecided(rule, "decodePrefix", "signature", p.Pos(fn.Pos()), "expected a []byte field and a bool family parameter")
+		return
+	}
+	b := paramExpr(fn, bi)
+	v6 := paramExpr(fn, vi)
 	bl := byteLoad(b, 0)
 	isBL := func(e *Expr) bool { return e.Key == bl.Key }
 	fam := func(v int64) func(a *Analysis, st *State) {
@@ -85,6 +99,17 @@ func (c *Check) decodePrefixRules(rule string) {
 			}
 			okC = okC && strings.Contains(pf.Key, want)
 			c.require(okC, rule, "decodePrefix", fmt.Sprintf("address family (ipv6=%d)", fv), p.InstrPos(r.Instr), "the address octets are copied into a zero-padded "+want+" array")
+			// zero padding: the array is a variable of this call (zeroed when
+			// the call starts), not storage that outlives it
+			okZ := false
+			if isCallNamed(pf, "netip.PrefixFrom") && len(pf.Args) == 2 && isCallNamed(pf.Args[0], want) && len(pf.Args[0].Args) == 1 {
+				arr := pf.Args[0].Args[0]
+				if arr.Op == "ld" && arr.Args[0].Op == "alloc" && st.fresh[arr.Args[0].Key] {
+					okZ = true
+				}
+			}
+			c.require(okZ, rule, "decodePrefix", fmt.Sprintf("zero padding (ipv6=%d)", fv), p.InstrPos(r.Instr),
+				"the array handed to "+want+" is allocated (hence zeroed) by this call: octets beyond ceil(bits/8) are 0, not leftovers of an earlier prefix")
 		}
 		if n == 0 {
 			c.fail(rule, "decodePrefix", fmt.Sprintf("success reachable (ipv6=%d)", fv), p.Pos(fn.Pos()), "no successful return")
